@@ -45,6 +45,7 @@ func TestVerif_C21(t *testing.T) {
 			f = verifNewFeed(t, label, 9, rng, live, nil)
 		} else {
 			f = verifNewFeedAt(t, label, 7, rng, live, nil, verifMintEpochUnix(), 1707)
+			f.pledgeTwoRefs = true // the other consensus classes carry exactly one reference
 		}
 		w := verifgen.NewWallet(label, rng, &f.net.Custodian, 4)
 		assets := verifgen.Assets()
